@@ -780,6 +780,29 @@ func init() {
 						}
 					}})
 			}
+			// an index that is a string value reads the key of exactly that spelling: keys that spell character references next to
+			// the characters they stand for, the index from a variable, a concatenation, an element, a loop variable
+			{
+				refKeys := []string{"&lt;", "<", "&amp;", "&", "&#39;", "'", "&quot;", "\"", "&amp;lt;", "&gt", "&#60;", "a&b"}
+				secs = append(secs, core.Section{Name: "keys-that-spell-character-references", Exhaustive: true, N: len(refKeys),
+					Run: func(c *core.Ctx, i int) {
+						k := refKeys[i]
+						o := map[string]any{}
+						for n, rk := range refKeys {
+							o[rk] = 100 + n
+						}
+						half := len(k) / 2
+						data := map[string]any{"o": o, "k": k, "k1": k[:half], "k2": k[half:], "ks": []string{"zz", k}}
+						src := "{{ o[k] }}|{{ o[k1 + k2] }}|{{ o[ks[1]] }}|@each(q in ks)@if(loop.last){{ o[q] + 1 }}@end@end|{{ o[k] == o[k1 + k2] }}|{{ {a: o}.a[k] * 2 }}"
+						want := fmt.Sprintf("%d|%d|%d|%d|1|%d", 100+i, 100+i, 100+i, 101+i, 2*(100+i))
+						c.Input(map[string]any{"source": src, "k": k})
+						c.Nontrivial("refkey:" + k)
+						got := evalString(c, src, data)
+						if !got.Panicked && (got.Err != nil || got.Out != want) {
+							c.Violation("keys-that-spell-character-references", fmt.Sprintf("with k = %q, %s gave %s, want %q", k, src, got.Describe(), want), map[string]any{"source": src, "k": k})
+						}
+					}})
+			}
 			// operands that are fields of bound values with methods (String, Error, MarshalText): such a value is the object of its
 			// exported fields like any other struct - directly, behind a pointer, as element and as map value
 			methodVals := []struct {
